@@ -5,3 +5,4 @@ pub mod r1;
 pub mod r2;
 pub mod r3;
 pub mod r4;
+pub mod r9;
